@@ -206,6 +206,7 @@ def gen_plan(seed, tier):
 
 class WorldChainEngine(EngineBase):
     name = 'worldchain'
+    fault_note = 'the property has no fault clause: no fault is injected; the explored dimension is the chain of builder calls (counts under ops); termination is decided by a line budget'
     source_files = ['TidalPy/structures/world_builder/world_builder.py', 'TidalPy/structures/world_builder/config_handler.py',
                     'TidalPy/structures/physical.py', 'TidalPy/structures/world_types/layered.py',
                     'TidalPy/structures/layers/basic.py', 'TidalPy/structures/layers/helper.py', 'TidalPy/utilities/dictionary_utils.py']
